@@ -21,6 +21,8 @@ from .zoneinfo import timezone_name
 
 URI_META = re.compile(r'([\\`\u0080-\uffff])')
 STR_META = re.compile(r'([\\"\$\u0080-\uffff])')
+# Control characters that have no short escape (see STR_SUB)
+CTRL_META = re.compile(r'([\x00-\x1f])')
 
 
 def str_sub(match):
@@ -41,6 +43,10 @@ def uri_sub(match):
         return '\\u%04x' % o
     elif c in '\\`':
         return '\\%s' % c
+
+
+def ctrl_sub(match):
+    return '\\u%04x' % ord(match.group(0))
 
 
 def dump_grid(grid):
@@ -163,6 +169,8 @@ def dump_str(str_value, version=LATEST_VER):
     # Replace other escapes.
     for orig, esc in STR_SUB:
         str_value = str_value.replace(orig, esc)
+    # Raw control characters are not permitted in a string.
+    str_value = CTRL_META.sub(ctrl_sub, str_value)
     return '"%s"' % str_value
 
 
@@ -172,6 +180,8 @@ def dump_uri(uri_value, version=LATEST_VER):
     # Replace other escapes.
     for orig, esc in STR_SUB:
         uri_value = uri_value.replace(orig, esc)
+    # Raw control characters are not permitted in a URI.
+    uri_value = CTRL_META.sub(ctrl_sub, uri_value)
     return '`%s`' % uri_value
 
 
